@@ -49,3 +49,8 @@ claim("C17", "exploration", "Hypothesis record sequences written through the rea
       "without priority prefix) and stdin, forward, reverse, from an offset, tail and head, with every priority threshold, through PenlogReader.records() and through hr; the result must "
       "equal the corresponding slice of what a second handler on the same logger saw. Exploration over an unbounded sequence space.",
       "The tap handler on the same logger is the ground truth for what was logged; exception text is merged into the message by Python's QueueHandler and compared by prefix.")
+claim("C05", "exploration", "Hypothesis-generated schedules (start delays, reply scripts, cancellation instants, worker interval) executed deterministically under a virtual-time loop; history invariants over a task-tagged transport trace",
+      "2..5 concurrent callers, the cyclic tester-present worker and reconnects share one ECU client over a scripted transport that tags every write/read with the current task; the recorded "
+      "history must show no foreign transmission inside any exchange (including pending extensions and retries), only own replies returned, progress after cancellation/failure. "
+      "Exploration: arrival orders are generated, not enumerated.",
+      "Only asyncio-task interleavings exist (single-threaded client); the virtual clock makes each schedule deterministic.")
